@@ -12,7 +12,25 @@ import Tuc.Lemmas.Natural
 engine that reads records or lines, running with the other terminator on the swapped input gives
 the swapped output, provided the literal texts of the options (delimiter, replacement, fillers,
 fallbacks) contain neither LF nor NUL (argv cannot contain NUL), `--json` is off and the delimiter
-is not a regex.
+is not a regex.  Everything is an instance of a naturality statement for an injective
+`σ : UInt8 → UInt8` (`Tuc.Lemmas.Natural` for the text primitives, the `*_map` lemmas here for the
+engines).
+
+Main statements (all for every input):
+* `records_swap`                       — the record reader;
+* `readAndCutStr_swap`                 — general engine, `-f` (`NoLfNulOpt`);
+  `readAndCutStr_swapAll`              — same, LF/NUL also exchanged inside the delimiter;
+* `readAndCutFast_swap`                — fast lane;
+* `cutBytesStream_swap`                — `-M`, every read segmentation;
+* `fieldMode_fast_swap`, `fieldMode_stream_swap` — the engine `main` picks does not depend on `-z`;
+* `utf8Chars_swap`, `validUtf8_swap`, `readAndCutStr_swap_chars` — `-c`;
+* `cutLines_swap`, `readAndCutLines_swap_buffered` — `-l`, buffered algorithm (full);
+* `readAndCutLines_swap_partial`       — `-l`, both algorithms, for inputs whose lines are UTF-8.
+
+FINDING: the full `-l` statement is false on the line-at-a-time path, for the model and for the
+code: in LF mode `read_line` rejects a line that is not UTF-8, in `-z` mode `read_until` does not
+(`fwdLines` tests `o.eol = .newline && !validUtf8 line`).  Counterexample at the end of the file;
+the asymmetry is isolated in `fwdCheck_swap`.
 -/
 
 namespace Tuc
@@ -994,14 +1012,19 @@ theorem NoLfNulStream.fixed {o : StreamOpt} (h : NoLfNulStream o) : StreamFixed 
     | filler f => exact swap_of_noLfNul (h.fillers f hb)
     | bound u => exact fun f hf => swap_of_noLfNul (h.fallbacks u f hb hf)
 
-/-- **C11, `-M`**: for every read segmentation. -/
-theorem cutBytesStream_swap {o : StreamOpt} (h : NoLfNulStream o) (segs : List Bytes) :
+theorem cutBytesStream_swap_of_fixed {o : StreamOpt} (h : StreamFixed swapByte o)
+    (segs : List Bytes) :
     cutBytesStream o.swapped (segs.map swap) = (cutBytesStream o segs).mapOut swap := by
   unfold cutBytesStream
-  have := streamRun_map swapByte_injective h.fixed o.eol.swap (EOL.swap_byte o.eol)
+  have := streamRun_map swapByte_injective h o.eol.swap (EOL.swap_byte o.eol)
     (tagSegments segs) {}
   rw [show (segs.map swap) = segs.map (List.map swapByte) from rfl, tagSegments_map]
   exact this
+
+/-- **C11, `-M`**: for every read segmentation. -/
+theorem cutBytesStream_swap {o : StreamOpt} (h : NoLfNulStream o) (segs : List Bytes) :
+    cutBytesStream o.swapped (segs.map swap) = (cutBytesStream o segs).mapOut swap :=
+  cutBytesStream_swap_of_fixed h.fixed segs
 
 /-! ## 7. UTF-8 segmentation and character mode (`-c`)
 
@@ -1329,7 +1352,148 @@ theorem readAndCutLines_swap_partial {o : Opt} (h : NoLfNulLits o) (input : Byte
   · exact cutLinesForwardOnly_swap_partial h input hv
   · exact cutLines_swap h input
 
-/-! ## 9. Concrete instances -/
+/-! ## 9. The engine chosen by `main` is the same with and without `-z` -/
+
+theorem fastOptOf_swapped (o : Opt) : fastOptOf o.swapped = (fastOptOf o).map FastOpt.swapped := by
+  generalize ho' : o.swapped = o'
+  have h1 : o'.delimiter = o.delimiter := by subst ho'; rfl
+  have h2 : o'.complement = o.complement := by subst ho'; rfl
+  have h3 : o'.greedyDelimiter = o.greedyDelimiter := by subst ho'; rfl
+  have h4 : o'.compressDelimiter = o.compressDelimiter := by subst ho'; rfl
+  have h5 : o'.json = o.json := by subst ho'; rfl
+  have h6 : o'.boundsType = o.boundsType := by subst ho'; rfl
+  have h7 : o'.replaceDelimiter = o.replaceDelimiter := by subst ho'; rfl
+  have h8 : o'.regexBag = o.regexBag := by subst ho'; rfl
+  have h9 : o'.join = o.join := by subst ho'; rfl
+  have h10 : o'.eol = o.eol.swap := by subst ho'; rfl
+  have h11 : o'.bounds = o.bounds := by subst ho'; rfl
+  have h12 : o'.onlyDelimited = o.onlyDelimited := by subst ho'; rfl
+  have h13 : o'.trim = o.trim := by subst ho'; rfl
+  have h14 : o'.fallbackOob = o.fallbackOob := by subst ho'; rfl
+  unfold fastOptOf
+  rw [h1, h2, h3, h4, h5, h6, h7, h8, h9, h10, h11, h12, h13, h14]
+  split
+  · split <;> rfl
+  · rfl
+
+theorem NoLfNulOpt.fast {o : Opt} (h : NoLfNulOpt o) {fo : FastOpt} (hf : fastOptOf o = some fo) :
+    NoLfNulFast fo := by
+  unfold fastOptOf at hf
+  split at hf
+  · rename_i d hd
+    split at hf
+    · cases hf
+    · cases hf
+      refine ⟨?_, h.fallbackOob, h.fillers, h.fallbacks⟩
+      exact h.delimiter d (by rw [hd]; simp)
+  · cases hf
+
+theorem streamOptOf_swapped (o : Opt) :
+    streamOptOf o.swapped = (streamOptOf o).map StreamOpt.swapped := by
+  generalize ho' : o.swapped = o'
+  have h1 : o'.delimiter = o.delimiter := by subst ho'; rfl
+  have h2 : o'.complement = o.complement := by subst ho'; rfl
+  have h3 : o'.greedyDelimiter = o.greedyDelimiter := by subst ho'; rfl
+  have h4 : o'.compressDelimiter = o.compressDelimiter := by subst ho'; rfl
+  have h5 : o'.json = o.json := by subst ho'; rfl
+  have h6 : o'.boundsType = o.boundsType := by subst ho'; rfl
+  have h7 : o'.replaceDelimiter = o.replaceDelimiter := by subst ho'; rfl
+  have h8 : o'.regexBag = o.regexBag := by subst ho'; rfl
+  have h9 : o'.join = o.join := by subst ho'; rfl
+  have h10 : o'.eol = o.eol.swap := by subst ho'; rfl
+  have h11 : o'.bounds = o.bounds := by subst ho'; rfl
+  have h12 : o'.onlyDelimited = o.onlyDelimited := by subst ho'; rfl
+  have h13 : o'.trim = o.trim := by subst ho'; rfl
+  have h14 : o'.fallbackOob = o.fallbackOob := by subst ho'; rfl
+  unfold streamOptOf
+  rw [h1, h2, h3, h4, h5, h6, h7, h8, h9, h10, h11, h12, h13, h14]
+  split
+  · rcases o.replaceDelimiter with _ | ⟨_ | ⟨r, _ | ⟨r2, t⟩⟩⟩ <;> simp only <;> (try rfl) <;>
+    · split
+      · rfl
+      · cases forwardBoundsOf o.bounds with
+        | none => rfl
+        | some bs =>
+          simp only
+          cases lastBoundRight (boundsOnly bs) <;> rfl
+  · rfl
+
+theorem streamOptOf_some {o : Opt} {so : StreamOpt} (hs : streamOptOf o = some so) :
+    o.delimiter = [so.delimiter] ∧
+      (∀ r, so.replaceDelimiter = some r → o.replaceDelimiter = some [r]) ∧
+      so.fallbackOob = o.fallbackOob ∧ forwardBoundsOf o.bounds = some so.bounds := by
+  unfold streamOptOf at hs
+  split at hs
+  · rename_i d hd
+    rcases hr : o.replaceDelimiter with _ | ⟨_ | ⟨r, _ | ⟨r2, t⟩⟩⟩ <;> rw [hr] at hs <;>
+      simp only at hs
+    · split at hs
+      · cases hs
+      · cases hf : forwardBoundsOf o.bounds with
+        | none => rw [hf] at hs; cases hs
+        | some bs =>
+          rw [hf] at hs
+          simp only at hs
+          cases hl : lastBoundRight (boundsOnly bs) with
+          | none => rw [hl] at hs; cases hs
+          | some last => rw [hl] at hs; cases hs; simp [hd]
+    · cases hs
+    · split at hs
+      · cases hs
+      · cases hf : forwardBoundsOf o.bounds with
+        | none => rw [hf] at hs; cases hs
+        | some bs =>
+          rw [hf] at hs
+          simp only at hs
+          cases hl : lastBoundRight (boundsOnly bs) with
+          | none => rw [hl] at hs; cases hs
+          | some last => rw [hl] at hs; cases hs; simp [hd]
+    · cases hs
+  · cases hs
+
+theorem NoLfNulOpt.streamFixed {o : Opt} (h : NoLfNulOpt o) {so : StreamOpt}
+    (hs : streamOptOf o = some so) : StreamFixed swapByte so := by
+  obtain ⟨hd, hr, hf, hb⟩ := streamOptOf_some hs
+  have hdd := h.delimiter so.delimiter (by rw [hd]; simp)
+  refine ⟨swapByte_of_ne hdd.1 hdd.2, ?_, ?_, ?_⟩
+  · intro r hrr
+    have := h.replace [r] (hr r hrr) r (by simp)
+    exact swapByte_of_ne this.1 this.2
+  · intro f hff
+    rw [hf] at hff
+    exact swap_of_noLfNul (h.fallbackOob f hff)
+  · unfold forwardBoundsOf at hb
+    split at hb
+    · cases hb
+    · split at hb
+      · split at hb
+        · cases hv : fromVec o.bounds.list with
+          | ok l' =>
+            rw [hv] at hb
+            simp only [Option.some.injEq] at hb
+            rw [← hb]
+            exact fromVec_fixed _ l' hv h.lits.fixed.bounds
+          | fail => rw [hv] at hb; cases hb
+          | panic => rw [hv] at hb; cases hb
+        · cases hb
+      · cases hb
+
+/-- **C11, field mode, whichever engine `main` picks**: the fast lane applies to `o` iff it applies
+    to `o` with `-z`, and then the two runs correspond. -/
+theorem fieldMode_fast_swap {o : Opt} (h : NoLfNulOpt o) {fo : FastOpt} (hf : fastOptOf o = some fo)
+    (input : Bytes) :
+    fastOptOf o.swapped = some fo.swapped ∧
+      readAndCutFast fo.swapped (swap input) = (readAndCutFast fo input).mapOut swap :=
+  ⟨by rw [fastOptOf_swapped, hf]; rfl, readAndCutFast_swap (h.fast hf) input⟩
+
+/-- the same for `-M` -/
+theorem fieldMode_stream_swap {o : Opt} (h : NoLfNulOpt o) {so : StreamOpt}
+    (hs : streamOptOf o = some so) (segs : List Bytes) :
+    streamOptOf o.swapped = some so.swapped ∧
+      cutBytesStream so.swapped (segs.map swap) = (cutBytesStream so segs).mapOut swap :=
+  ⟨by rw [streamOptOf_swapped, hs]; rfl, cutBytesStream_swap_of_fixed (h.streamFixed hs) segs⟩
+
+/-! ## 10. Concrete instances -/
 
 section examples
 
